@@ -22,6 +22,7 @@ type jwrite struct {
 	Off    [3]int      `json:"off"`
 	Size   [3]int      `json:"size"`
 	Paints []blk.Paint `json:"paints"`
+	Child  bool        `json:"child,omitempty"` // commit the node and continue on a new child version before this write
 }
 
 type jcase struct {
@@ -118,16 +119,17 @@ func main() {
 		run.Add("vote", term, c, fmt.Sprintf("vote/%v/%x", c.N, blk.Digest(arr)))
 	}
 
-	var uuid string
+	opened := false
 	addHTTP := func(c jcase) {
-		if uuid == "" {
+		if !opened {
 			dv.Quiet()
 			dv.Open()
-			var err error
-			if uuid, err = dv.NewRepo("c14"); err != nil {
-				fmt.Fprintln(os.Stderr, err)
-				os.Exit(2)
-			}
+			opened = true
+		}
+		uuid, err := dv.NewRepo(fmt.Sprintf("c14-%d", httpSeq))
+		if err != nil {
+			fmt.Fprintln(os.Stderr, err)
+			os.Exit(2)
 		}
 		httpSeq++
 		name := fmt.Sprintf("lm%d", httpSeq)
@@ -138,6 +140,19 @@ func main() {
 		var status []uint64
 		failed := false
 		for i, w := range c.Writes {
+			if w.Child {
+				if r := dv.Commit(uuid); r.Status != 200 {
+					fmt.Fprintln(os.Stderr, "commit:", r.Status, string(r.Body))
+					os.Exit(2)
+				}
+				child, r := dv.NewVersion(uuid)
+				if r.Status != 200 || child == "" {
+					fmt.Fprintln(os.Stderr, "newversion:", r.Status, string(r.Body))
+					os.Exit(2)
+				}
+				uuid = child
+				run.Count("http:child-version")
+			}
 			arr := blk.Expand(w.Size[0], w.Size[1], w.Size[2], w.Paints)
 			url := fmt.Sprintf("/api/node/%s/%s/raw/0_1_2/%d_%d_%d/%d_%d_%d", uuid, name, w.Size[0], w.Size[1], w.Size[2], w.Off[0], w.Off[1], w.Off[2])
 			if i > 0 {
@@ -196,11 +211,12 @@ func main() {
 			neg = "negative"
 		}
 		run.Count("http:window:" + neg)
+		run.Count(fmt.Sprintf("http:maxlevel:%d", c.Max))
 		run.Count(fmt.Sprintf("http:writes:%d", len(c.Writes)))
 		run.Add("http", term, c, fmt.Sprintf("http/%v/%d/%d/%v", c.Win, c.Max, len(c.Writes), c.Writes[len(c.Writes)-1].Off))
 	}
 	defer func() {
-		if uuid != "" {
+		if opened {
 			dv.Close()
 		}
 	}()
@@ -306,6 +322,20 @@ func main() {
 		addHTTP(jcase{Kind: "http", Max: 2, Win: win, WN: wn, Writes: []jwrite{
 			{Off: win, Size: [3]int{32, 32, 32}, Paints: []blk.Paint{blk.Hash([6]int{0, 0, 0, 32, 32, 32}, 2, 77, []uint64{1, 2, 3})}}}})
 	}
+	// corpus: a mutating write that moves a box inside one block (per-label counts unchanged), on the
+	// root version and on a child version, for max level 1..3
+	for k, max := range []int{1, 2, 3} {
+		win := [3]int{0, 0, 0}
+		if k == 1 {
+			win = [3]int{-32, 0, -32}
+		}
+		ing := ingest(win, []uint64{1, 2, 3})
+		// block (1,0,1) of the window: label 7 with a 4x4x4 box of label 8
+		ing.Paints = append(ing.Paints, blk.Box([6]int{16, 0, 16, 32, 16, 32}, 7), blk.Box([6]int{18, 2, 18, 22, 6, 22}, 8))
+		move := jwrite{Off: [3]int{win[0] + 16, win[1], win[2] + 16}, Size: [3]int{16, 16, 16},
+			Paints: []blk.Paint{blk.Fill(7), blk.Box([6]int{9, 8, 3, 13, 12, 7}, 8)}, Child: k != 0}
+		addHTTP(jcase{Kind: "http", Max: max, Win: win, WN: wn, Writes: []jwrite{ing, move}})
+	}
 	for i := 0; i < nHTTP; i++ {
 		win := [3]int{0, 0, 0}
 		if rng.Chance(0.4) {
@@ -320,9 +350,21 @@ func main() {
 			if rng.Bool() {
 				ps = []blk.Paint{blk.Hash([6]int{0, 0, 0, sz[0], sz[1], sz[2]}, uint64(rng.Pick(1, 2)), uint64(rng.Intn(1<<16)), []uint64{0, 4, 1})}
 			}
-			ws = append(ws, jwrite{Off: off, Size: sz, Paints: ps})
+			ws = append(ws, jwrite{Off: off, Size: sz, Paints: ps, Child: rng.Chance(0.3)})
 		}
-		addHTTP(jcase{Kind: "http", Max: 2, Win: win, WN: wn, Writes: ws})
+		if rng.Chance(0.6) {
+			// count-preserving rearrangement of one block: same labels and counts, other positions
+			bo := [3]int{16 * rng.Intn(2), 16 * rng.Intn(2), 16 * rng.Intn(2)}
+			a, b := uint64(10+rng.Intn(3)), uint64(20+rng.Intn(3))
+			e := 2 + rng.Intn(6)
+			p1 := [3]int{rng.Intn(16 - e), rng.Intn(16 - e), rng.Intn(16 - e)}
+			p2 := [3]int{rng.Intn(16 - e), rng.Intn(16 - e), rng.Intn(16 - e)}
+			box := func(p [3]int) [6]int { return [6]int{p[0], p[1], p[2], p[0] + e, p[1] + e, p[2] + e} }
+			off := [3]int{win[0] + bo[0], win[1] + bo[1], win[2] + bo[2]}
+			ws = append(ws, jwrite{Off: off, Size: [3]int{16, 16, 16}, Paints: []blk.Paint{blk.Fill(a), blk.Box(box(p1), b)}},
+				jwrite{Off: off, Size: [3]int{16, 16, 16}, Paints: []blk.Paint{blk.Fill(a), blk.Box(box(p2), b)}, Child: rng.Chance(0.4)})
+		}
+		addHTTP(jcase{Kind: "http", Max: 1 + rng.Intn(3), Win: win, WN: wn, Writes: ws})
 	}
 
 	run.Finish("c14case",
